@@ -4,6 +4,7 @@
 # Copyright (c) 2015-2019, Ilya Etingof <etingof@gmail.com>
 # License: http://snmplabs.com/pysmi/license.html
 #
+import textwrap
 
 
 def capfirst(text):
@@ -11,3 +12,17 @@ def capfirst(text):
         return text
 
     return text[0].upper() + text[1:]
+
+
+def wordwrap(text, width=79):
+    """Wrap text at white space only.
+
+    Unlike the stock filter this one never splits a long word and never
+    breaks a line at a hyphen, so the words of the text stay intact.
+    """
+    return '\n'.join(
+        '\n'.join(textwrap.wrap(line, width=width, expand_tabs=False,
+                                replace_whitespace=False,
+                                break_long_words=False,
+                                break_on_hyphens=False))
+        for line in text.splitlines())
